@@ -139,7 +139,9 @@ func ToParams(protoParams *Params) (*channel.Params, error) {
 
 	var aux channel.Aux
 	copy(aux[:], protoParams.GetAux())
-	params := channel.NewParamsUnsafe(
+	// The parameters come from the wire, so they are validated like the perunio
+	// decoder of the parameters validates them.
+	return channel.NewParams(
 		protoParams.GetChallengeDuration(),
 		parts,
 		app,
@@ -148,8 +150,6 @@ func ToParams(protoParams *Params) (*channel.Params, error) {
 		protoParams.GetVirtualChannel(),
 		aux,
 	)
-
-	return params, nil
 }
 
 // ToState converts a protobuf State to a channel.State.
